@@ -45,7 +45,16 @@ def c14(tier):
     pl = refine.Pipeline("c14", tier=tier)
     pl.run(cases, sem=False, pair=True, maxin=12 if tier == "quick" else 32)
     nbad = checks_refine.judge(pl, verdict, pid, checks_refine.finding_signatures(pid), bodies)
-    evidence_pair(pid, tier, pl, verdict, nbad, t0, "Programs with calls (families F5a, F5b, F6: arguments, results in larger expressions, nested calls, callee bodies with loops, early returns, "
+    # ---- Layer 2: Inline.tla (append_code as coded, used as push_code uses it) model-checked for unique labels, closed bodies, sizes and
+    # shape on every body within the bound, and bound to the real append_code by replay (drift is reported, it is not a verdict)
+    from . import inlinemodel
+    ires, iconfs, idrift = inlinemodel.run("c14", 4 if tier == "quick" else 5, 3000 if tier == "quick" else 40000)
+    layer2 = dict(bodies_model_checked=ires.distinct, max_lines=4 if tier == "quick" else 5, invariants=["LabelsOK", "ClosedOK", "SizeOK", "ShapeOK"],
+                  bodies_replayed_into_append_code=len(iconfs), scenarios=["inlined twice", "nested inlining, inlined twice"], model_conformant=(len(idrift) == 0),
+                  drifts=len(idrift), first_drift=(idrift[0] if idrift else None))
+    if idrift:
+        print("[vf] NOTE: append_code() no longer behaves like Inline.tla on %d of %d replayed cases (model drift), e.g. %s" % (len(idrift), 2 * len(iconfs), json.dumps(idrift[0])[:400]))
+    evidence_pair(pid, tier, pl, verdict, nbad, t0, extra=dict(layer2_Inline=layer2), explanation="Programs with calls (families F5a, F5b, F6: arguments, results in larger expressions, nested calls, callee bodies with loops, early returns, "
                   "switch, locals) are compiled with no function inline and with subsets of the called functions declared inline; Refine.tla runs the non-inline code, then each "
                   "inline variant from the same input and requires equal final variables, X, Y, faults and termination.")
     return verdict.finish()
